@@ -453,6 +453,10 @@ EndBlockHub(s) ==
 Ok(s)  == [out |-> "ok", s |-> s, id |-> 0]
 Err(s) == [out |-> "err", s |-> s, id |-> 0]
 
+\* the name under which the harness records the hash of an accepted send transaction: chain initial + transfer id
+SendHash(s, chain) == "s" \o (CASE chain = "ethereum" -> "e" [] chain = "minter" -> "m" [] chain = "bsc" -> "b" [] OTHER -> "x")
+                          \o ToString(s.ch[chain].txid + 1)
+
 \* a.dest valid: model names are valid addresses; "zero" is the zero address, "bad" a malformed one
 MsgSend(s, a) ==
     LET tok == TokByDenom(s.cfg, a.chain, a.denom) IN
@@ -461,7 +465,7 @@ MsgSend(s, a) ==
     ELSE LET comm == Commission(s, tok, {a.from, a.dest}, a.amt + a.fee)
          IN IF comm > a.amt THEN Err(s)                     \* Coin.SubAmount panics, recovered by baseapp
             ELSE LET cr == CreateSend(s, a.chain, a.from, a.dest, a.denom, a.amt - comm, a.fee, comm,
-                                      "h" \o ToString(a.i), "hub", a.from)
+                                      SendHash(s, a.chain), "hub", a.from)
                  IN IF cr.ok THEN [out |-> "ok", s |-> cr.s, id |-> cr.id] ELSE Err(s)
 
 MsgCancel(s, a) ==
